@@ -35,7 +35,9 @@ TBind ==
             \o Chk(e.abi_bad = 0, "C19", "abi", l, << "resolver", e.abi_name >>)
             \o Chk(e.statics_bad = 0, "C18", "static-write", l, << "resolver wrote more than its binding" >>)
             \* racing first calls bind correctly only if the slot goes from the resolver stub to the final target in one store
-            \o Chk(e.multi = 0, "C18", "binding-published-in-more-than-one-step", l, << e.multi_name >>))
+            \o Chk(e.multi = 0, "C18", "binding-published-in-more-than-one-step", l, << e.multi_name >>)
+            \* ... and a slot that held another implementation before the final one is a binding that changed (C12, last clause)
+            \o Chk(e.multi = 0, "C12", "binding-changed-after-first-publication", l, << e.multi_name >>))
 
 TTwice == /\ IsEv("BindTwice")
           /\ Adv(Chk(Tr[l].changed = 0, "C12", "binding-changed-on-second-resolution", l, << Tr[l].name >>))
